@@ -453,7 +453,8 @@ def topn_adjacent(rep, lib, rid="C07-TOPN-ADJACENT"):
                 r.ok(key, "capacity is always None", c.where())
             else:
                 r.bad(key, "every --sort-by stage in the loop is given a capacity (values %s): a secondary sort "
-                      "truncates on the minor key before the major key is applied" % sorted(map(str, vals)), c.where())
+                      "truncates on the minor key before the major key is applied"
+                      % sorted("not provably None" if v is None else str(v) for v in vals), c.where())
             continue
         en = enum_next[0]
         bad = None
